@@ -244,7 +244,7 @@ func (e *Enc) Encode() {
 		t := e.evalBool(ax.Expr, env)
 		if len(e.unsupported) > n {
 			e.unsupported = e.unsupported[:n]
-			e.asserts = e.asserts[:na]
+			e.rollback(na)
 			continue
 		}
 		e.assert(t)
@@ -888,6 +888,9 @@ func (e *Enc) instr(ins ssa.Instruction) {
 		e.define(x, a)
 		e.assert(implies(e.reach[e.curBlock], e.typeFacts(e.vals[x].T, x.Type())))
 		t := x.Type().(*types.Pointer).Elem()
+		if _, isArr := under(t).(*types.Array); isArr && scratchBuffer(x, 0) {
+			e.scratch = append(e.scratch, scratchObj{root: e.rootOf(a), reach: e.reach[e.curBlock]})
+		}
 		e.registerLocalCells(x, e.vals[x].T)
 		e.store(h, e.vals[x].T, nil, t, e.zero(t))
 		if t.String() == "strings.Builder" {
@@ -989,6 +992,9 @@ func (e *Enc) instr(ins ssa.Instruction) {
 				// the interface value inherits the reader's ghost accounting
 				h.m["$consumed"] = app("store", e.heapGet(h, "$consumed", "Int"), v.T, app("select", e.heapGet(h, "$consumed", "Int"), xv.T))
 				h.m["$limit"] = app("store", e.heapGet(h, "$limit", "Int"), v.T, app("select", e.heapGet(h, "$limit", "Int"), xv.T))
+				if e.token {
+					h.m["$rem"] = app("store", e.heapGet(h, "$rem", "B"), v.T, app("select", e.heapGet(h, "$rem", "B"), xv.T))
+				}
 			}
 		case "Int":
 			e.assert(implies(rg, app("=", app("unboxInt", v.T), xv.T)))
@@ -1002,6 +1008,9 @@ func (e *Enc) instr(ins ssa.Instruction) {
 		e.oblige("make", descOf(e.exprText(x, x)), "", x.Pos(), e.guardGoal(and(app("<=", "0", ln), app("<=", ln, cp), app("<=", app("*", cp, ilit(elemSize)), "281474976710656"))))
 		o := e.newObj(h)
 		v := e.define(x, app("mkslice", o, "0", ln, cp))
+		if scratchBuffer(x, 0) {
+			e.scratch = append(e.scratch, scratchObj{root: e.rootOf(o), reach: e.reach[e.curBlock]})
+		}
 		if e.token && isByteSlice(x.Type()) {
 			e.setBytes(h, v.T, app("bzeros", ln))
 		}
@@ -1260,12 +1269,20 @@ func (e *Enc) nilCheck(addr string, addrV ssa.Value, pos token.Pos, what string)
 	e.oblige("nil", descOf(e.exprText(addrV, nil)), "", pos, e.guardGoal(app("distinct", addr, "nil")))
 }
 
+var stdErrVar = map[string]bool{"io.EOF": true, "io.ErrUnexpectedEOF": true, "io.ErrShortBuffer": true, "io.ErrShortWrite": true}
+
 func (e *Enc) unop(x *ssa.UnOp) {
 	v := e.val(x.X)
 	switch x.Op {
 	case token.MUL:
 		if g, ok := x.X.(*ssa.Global); ok && e.w.NonNilGlobal[g] {
 			// init-only package-level error value: a fixed non-nil object, distinct per variable
+			e.define(x, app("obj", ilit(globalID("val:"+g.String()))))
+			return
+		}
+		if g, ok := x.X.(*ssa.Global); ok && stdErrVar[g.String()] {
+			// sentinel errors of the standard library: fixed non-nil values (assumption, listed in the evidence)
+			e.trustedUsed["standard library sentinel error "+g.String()+" is a fixed non-nil value"] = true
 			e.define(x, app("obj", ilit(globalID("val:"+g.String()))))
 			return
 		}
@@ -1666,10 +1683,32 @@ func (e *Enc) sliceOp(x *ssa.Slice) {
 		if e.token && typeKey(arr.Elem()) == "uint8" && arr.Len() <= 16 {
 			// a byte-array literal: its content is the cells as they are now
 			e.setBytes(e.cur, r.T, e.bytesExpand(e.cur, r.T, int(arr.Len())))
+		} else if al, isAl := x.X.(*ssa.Alloc); isAl && e.token && typeKey(arr.Elem()) == "uint8" && onlySliced(al, x) {
+			// make([]byte, n, N): a fresh zeroed array that is reachable through this slice only
+			e.setBytes(e.cur, r.T, app("bzeros", app("-", hi, lo)))
 		}
 	default:
 		e.unsupp("slice of %s", x.X.Type())
 	}
+}
+
+// onlySliced: the allocation is used by this slice expression and nothing else.
+func onlySliced(al *ssa.Alloc, sl *ssa.Slice) bool {
+	if al.Referrers() == nil {
+		return false
+	}
+	for _, r := range *al.Referrers() {
+		switch u := r.(type) {
+		case *ssa.DebugRef:
+		case *ssa.Slice:
+			if u != sl {
+				return false
+			}
+		default:
+			return false
+		}
+	}
+	return true
 }
 
 // zeroFill: all cells of the fresh array arr (element type et) are zero (precise mode only).
@@ -1710,6 +1749,22 @@ func (e *Enc) ret(x *ssa.Return) {
 					lenv.names[n] = binding{val, v.Type()}
 				}
 			}
+			// variables merged at the top of a dominating block
+			for _, ins := range b.Instrs {
+				phi, ok := ins.(*ssa.Phi)
+				if !ok {
+					break
+				}
+				if phi.Comment == "" {
+					continue
+				}
+				if _, dup := lenv.names[phi.Comment]; dup {
+					continue
+				}
+				if val, known := e.vals[phi]; known {
+					lenv.names[phi.Comment] = binding{val, phi.Type()}
+				}
+			}
 		}
 		for _, lm := range e.ct.Lemmas {
 			n := len(e.unsupported)
@@ -1718,7 +1773,7 @@ func (e *Enc) ret(x *ssa.Return) {
 			if len(e.unsupported) > n {
 				// a local the lemma mentions is not defined on the paths to this return
 				e.unsupported = e.unsupported[:n]
-				e.asserts = e.asserts[:na]
+				e.rollback(na)
 				continue
 			}
 			g := e.guardGoal(t)
